@@ -167,6 +167,20 @@ def registry_replay(chk, quick):
                 f"registry:{b['clause']}",
                 f"registry history {b['calls']}: step {b['step']} disagrees "
                 f"with spec/Registry.tla ({b['clause']}: {b['detail']})", b)
+    if not quick:
+        # unbounded counterpart (non-gating for verdicts about the code): the
+        # freshness invariant of the abstract registry is inductive
+        try:
+            pr = subprocess.run([os.path.join(VERIF, "tools",
+                                              "apalache_registry.sh")],
+                                capture_output=True, text=True, timeout=1800)
+            chk.notes["apalache_registry"] = pr.stdout.strip()[-200:]
+            if pr.returncode != 0:
+                chk.machinery_errors.append("Apalache: the registry invariant "
+                                            "is not inductive: " +
+                                            pr.stdout[-400:])
+        except (OSError, subprocess.TimeoutExpired) as exc:
+            chk.notes["apalache_registry"] = f"not run ({exc})"
     chk.add_sample({"registry_histories": "every sequence of <= 3 (menu of "
                     "24 calls) / <= 4 (thorough) explicit and generic "
                     "index requests on two (space, spin) classes"})
